@@ -1,6 +1,6 @@
 (* Wire format shared with the Go harness: a case is a list of naturals (a prefix-coded tree); so is the answer.
    The decoder is Gallina, so the extracted driver and the in-kernel vm_compute route run the same function. *)
-From LD Require Import Base F32 Data Scan Semver Time Model Ops Bucket Eval Codec Buffer.
+From LD Require Import Base F32 Data Scan Semver Time Model Ops Bucket Eval Codec Buffer Nesting.
 Open Scope Z_scope.
 
 Inductive T := A (n : N) | S (b : str) | L (l : list T).
@@ -318,6 +318,12 @@ Definition run_case1 (t : T) : T :=
     end
   (* 9: hex *)
   | L [A 9%N; S x] => e_opt AZ (parse_hex x)
+  (* 11: nesting scan of the byte entry points; the document comes as repeated pieces *)
+  | L [A 11%N; L pieces] =>
+    match d_all (fun p => match p with L [A n; S x] => Some (n, x) | _ => None end) pieces with
+    | Some ps => Ab (nesting_ok (expand ps))
+    | None => bad
+    end
   | _ => bad
   end.
 
